@@ -298,7 +298,19 @@ pub struct AirContext {
     pub trace_len: usize,
     pub num_transition_exemptions: usize,
 }
-pub uninterp spec fn from_transition_spec(n: int, k: int) -> ConstraintDivisor;
+// the transition divisor of n steps with k exemptions: numerator x^n - 1, exemption points g^(n-k) .. g^(n-1)
+pub open spec fn is_transition_divisor(d: ConstraintDivisor, n: int, k: int) -> bool {
+    &&& d.numerator@.len() == 1 && d.numerator@[0].0 == n && d.numerator@[0].1 == one_b()
+    &&& d.exemptions@.len() == k
+    &&& forall|t: int| 0 <= t < k ==> #[trigger] d.exemptions@[t] == pw(root_spec(log2f(n)), (n - k + t) as nat)
+}
+// `(lo..hi).map(|step| get_trace_domain_value_at::<B>(n, step)).collect()`: ASSUMED (Iterator::map / collect over a range) to
+// apply the function to lo, lo + 1, .., hi - 1 in order; the function's own contract is the one proved above
+#[verifier::external_body]
+pub fn domain_values(lo: usize, hi: usize, n: usize) -> (r: Vec<B>)
+    requires lo <= hi <= n, n > 0
+    ensures r@.len() == hi - lo, forall|t: int| 0 <= t < hi - lo ==> #[trigger] r@[t] == pw(root_spec(log2f(n as int)), (lo + t) as nat)
+{ unimplemented!() }
 impl AirContext {
     #[verifier::external_body]
     pub fn num_transition_constraints(&self) -> (r: usize)
@@ -308,8 +320,41 @@ impl AirContext {
     pub fn num_transition_exemptions(&self) -> (r: usize) ensures r == self.num_transition_exemptions { self.num_transition_exemptions }
 }
 impl ConstraintDivisor {
-    #[verifier::external_body]
-    pub fn from_transition(n: usize, k: usize) -> (r: ConstraintDivisor) ensures r == from_transition_spec(n as int, k as int) { unimplemented!() }
+    //@@ source air/src/air/divisor.rs
+    //@@ extract anchor="pub fn from_transition("
+    //@@ rewrite-re "\(constraint_enforcement_domain_size - num_exemptions\s*\.\.constraint_enforcement_domain_size\)\s*\.map\(\|step\| get_trace_domain_value_at::<B>\(constraint_enforcement_domain_size, step\)\)\s*\.collect\(\)" => "domain_values(constraint_enforcement_domain_size - num_exemptions, constraint_enforcement_domain_size, constraint_enforcement_domain_size)"
+    //@@ rewrite "B::ONE" => "B::one()"
+    pub fn from_transition(constraint_enforcement_domain_size: usize, num_exemptions: usize) -> (r: ConstraintDivisor)
+        requires constraint_enforcement_domain_size > 0, num_exemptions <= constraint_enforcement_domain_size
+        ensures is_transition_divisor(r, constraint_enforcement_domain_size as int, num_exemptions as int)
+    {
+        /*@@body*/
+    }
+}
+
+// THEOREM (C16, transition constraints): on the trace domain the numerator x^n - 1 of the transition divisor vanishes at EVERY
+// step, and an exemption factor (x - g^j), n - k <= j < n, vanishes at step i exactly when i == j; so the divisor vanishes on
+// exactly the steps 0 .. n - k - 1: transition constraints are enforced there and nowhere else. Relative to `g has order n`.
+pub proof fn theorem_transition_zero_set(n: int, k: int, g: B, i: int)
+    requires blaws(), ord_ok(g, n), 0 <= k <= n, 0 <= i < n
+    ensures
+        pw(pw(g, i as nat), n as nat) == one_b(),
+        (exists|j: int| n - k <= j < n && pw(g, i as nat) == #[trigger] pw(g, j as nat)) <==> i >= n - k,
+{
+    l_pw_mul(g, i as nat, n as nat);
+    assert(i * n >= 0) by (nonlinear_arith) requires i >= 0, n >= 0;
+    lemma_mod_multiples_basic(i, n);
+    assert((i * n) % n == 0);
+    lemma_small_mod(0nat, n as nat);
+    assert(pw(g, (i * n) as nat) == pw(g, 0nat));
+    if i >= n - k {
+        assert(n - k <= i < n && pw(g, i as nat) == pw(g, i as nat));
+    } else {
+        assert forall|j: int| n - k <= j < n implies pw(g, i as nat) != #[trigger] pw(g, j as nat) by {
+            lemma_small_mod(i as nat, n as nat);
+            lemma_small_mod(j as nat, n as nat);
+        }
+    }
 }
 #[verifier::external_body]
 pub fn must_not_panic() requires false { unimplemented!() }
@@ -344,12 +389,14 @@ impl TransitionConstraints {
         requires
             // the documented pre-condition (the assertion of the source): one coefficient per transition constraint
             composition_coefficients.len() == context.main_transition_constraint_degrees.len() + context.aux_transition_constraint_degrees.len(),
+            // what the context's constructors guarantee (unit contextv: the exemption count is in 1..=n/2+1)
+            context.trace_len > 0, context.num_transition_exemptions <= context.trace_len,
         ensures
             r.main_constraint_coef@ == composition_coefficients@.subrange(0, context.main_transition_constraint_degrees.len() as int),
             r.aux_constraint_coef@ == composition_coefficients@.subrange(context.main_transition_constraint_degrees.len() as int, composition_coefficients.len() as int),
             r.main_constraint_degrees@ == context.main_transition_constraint_degrees@,
             r.aux_constraint_degrees@ == context.aux_transition_constraint_degrees@,
-            r.divisor == from_transition_spec(context.trace_len as int, context.num_transition_exemptions as int),
+            is_transition_divisor(r.divisor, context.trace_len as int, context.num_transition_exemptions as int),
     {
         /*@@body*/
     }
